@@ -215,6 +215,14 @@ func (c *panicClient) dischargeIndex(e *Engine, st *State, base, idx ast.Expr) (
 		}
 		return false, fmt.Sprintf("len(%s) >= %d is not known here", exprStr(base), v+1)
 	}
+	// i := len(e) - k held in a variable
+	if ki, kb := e.CanonSt(st, idx), e.CanonSt(st, base); ki.OK && kb.OK && strings.HasPrefix(ki.Key, "(len("+kb.Key+")-") && strings.HasSuffix(ki.Key, ")") {
+		if k, ok := parseInt(ki.Key[len("(len("+kb.Key+")-") : len(ki.Key)-1]); ok && k >= 1 {
+			if c.lenAtLeast(e, st, base, k) {
+				return true, "I-last: index len-k (held in a variable) with len >= k known"
+			}
+		}
+	}
 	// e[len(e)-1]
 	if b, ok := ast.Unparen(idx).(*ast.BinaryExpr); ok && b.Op == token.SUB {
 		if call, ok := ast.Unparen(b.X).(*ast.CallExpr); ok && IsBuiltinCall(info, call, "len") && sameExpr(info, call.Args[0], base) {
@@ -312,6 +320,16 @@ func (c *panicClient) dischargeSlice(e *Engine, st *State, x *ast.SliceExpr) (bo
 				return true, fmt.Sprintf("I-const: len >= %d known", v)
 			}
 			return false, fmt.Sprintf("len(%s) >= %d is not known here", exprStr(x.X), v)
+		}
+	}
+	// e[:n] with n := len(e) - k held in a variable
+	if x.Low == nil && x.High != nil {
+		if kh, kb := e.CanonSt(st, x.High), e.CanonSt(st, x.X); kh.OK && kb.OK && strings.HasPrefix(kh.Key, "(len("+kb.Key+")-") && strings.HasSuffix(kh.Key, ")") {
+			if k, ok := parseInt(kh.Key[len("(len("+kb.Key+")-") : len(kh.Key)-1]); ok && k >= 0 {
+				if c.lenAtLeast(e, st, x.X, k) {
+					return true, "I-last: drops the last k elements (count held in a variable) of a slice with len >= k"
+				}
+			}
 		}
 	}
 	// e[:len(e)-k]
